@@ -1,5 +1,5 @@
 (* C18 - message listing is one total order; pages partition it; out-of-range limits are refused.
-   ONLY statements (storage contract level; the last-message pointer invariant of the engine is in Props/C18e.v). *)
+   ONLY statements (storage contract level; the engine-level pointer invariant is evaluated on the real clients by ptr_diff). *)
 From Coq Require Import Permutation.
 From MDK Require Import Base.Prelude Base.AMap Store.Contract Store.ContractSpec Store.ContractProofs Store.PtrProofs Store.SqlTie.
 
